@@ -31,6 +31,9 @@ type c17Writer struct {
 	// EmptyBefore: datagram sockets that are not in one-shot mode: a zero-length
 	// datagram is sent before write i. It carries no line and ends nothing.
 	EmptyBefore []int `json:"empty_before,omitempty"`
+	// OneDatagram (unixgram): the whole script goes out as a single datagram
+	// (up to about 100 KiB: a unix datagram is not limited to 64 KiB)
+	OneDatagram bool `json:"one_datagram,omitempty"`
 }
 
 type c17Case struct {
@@ -79,6 +82,9 @@ func (w *c17Writer) script(id int) (string, []string) {
 // writes cuts the script into the byte strings of the individual writes.
 func (w *c17Writer) writes(id int, whole bool) []string {
 	s, lines := w.script(id)
+	if w.OneDatagram {
+		return []string{s}
+	}
 	if whole || len(w.Cuts) == 0 {
 		var out []string
 		for i, l := range lines {
@@ -509,12 +515,21 @@ func TestC17(t *testing.T) {
 					w.Lines = rapid.IntRange(600, 900).Draw(rt, "bulklines")
 					st.Class("datagram-bulk-over-128KiB")
 				}
+				if c.Kind == "unixgram" && i == 0 && w.Lines < 600 && rapid.IntRange(0, 1).Draw(rt, "onedgram") == 0 {
+					// one large datagram: 1500-2300 lines of about 55 bytes
+					w.Lines = rapid.IntRange(1500, 2300).Draw(rt, "dgramlines")
+					w.OneDatagram = true
+					st.Class("one-unix-datagram-over-64KiB")
+				}
 				np := rapid.IntRange(1, 4).Draw(rt, "npads")
 				for k := 0; k < np; k++ {
 					w.Pads = append(w.Pads, rapid.SampledFrom([]int{0, 1, 10, 80, 300, 5000}).Draw(rt, "pad"))
 				}
 				if w.Lines >= 300 {
 					w.Pads = []int{300, 290, 300, 280}
+				}
+				if w.OneDatagram {
+					w.Pads = []int{44, 40, 48, 42}
 				}
 				w.Tail = rapid.IntRange(0, 2).Draw(rt, "tail") == 0
 				if w.Lines == 0 && !w.Tail {
